@@ -162,7 +162,7 @@ PROPS["C01"] = {
                     {"checks": 1500, "shards": 8, "env": {"C01_BUDGET": 20000}}),
                   T("TestC01Generators", {"checks": 100, "shards": 4, "env": {"C01_MINBITS": 14, "C01_PRODUCT_LOG2": 19}},
                     {"checks": 300, "shards": 16, "env": {"C01_MINBITS": 10, "C01_PRODUCT_LOG2": 23}}),
-                  T("TestC01HugePrefix", {"checks": 24, "shards": 2}, {"checks": 300, "shards": 8}),
+                  T("TestC01HugePrefix", {"checks": 24, "shards": 2}, {"checks": 60, "shards": 4}),
                   T("TestC01Netns", {"checks": 8, "shards": 6}, {"checks": 120, "shards": 12}),
                   {"name": "TestC01BigSubnet", "quick": {"skip": True}, "variant": "b8",
                    "thorough": {"checks": 1, "env": {"C01_BIG_BITS": 8}, "timeout": 3000}},
@@ -290,6 +290,7 @@ PROPS["C12"] = {
     "units": [{
         "pkg": "command", "race": True,
         "tests": [T("TestC12App", {"checks": 60, "shards": 8, "gomaxprocs": [1, 2, 4, 16]}, {"checks": 600, "shards": 16, "gomaxprocs": [1, 2, 4, 16]}),
+                  T("TestC12ChunkSwitch", {"checks": 6, "shards": 4}, {"checks": 60, "shards": 8}),
                   T("TestC12Packet", {"checks": 3, "shards": 8}, {"checks": 30, "shards": 16}),
                   T("TestC12Socks", {"checks": 4, "shards": 4}, {"checks": 30, "shards": 8}),
                   T("TestC12Services", {"checks": 6, "shards": 4}, {"checks": 60, "shards": 8})] + [
